@@ -368,14 +368,17 @@ def glue_builtins() -> None:
         # and we want to treat them as suspended for
         # traceback extraction purposes.
         if agen.ag_running:
+            frame = agen.ag_frame
+            if frame is None:
+                # It has finished: an async generator that finishes while
+                # its aclose() awaitable is being thrown into (a task
+                # cancelled during the generator's cleanup) keeps the flag.
+                return []
             # If the frame is visibly executing right now (only an executing
             # generator frame is linked to its caller), don't even look at
             # ag_await: on CPython 3.12.0 and 3.12.1, reading it from an
             # executing generator can return a garbage pointer and crash.
-            frame = agen.ag_frame
-            if (frame is not None and frame.f_back is not None) or (
-                agen.ag_await is None
-            ):
+            if frame.f_back is not None or agen.ag_await is None:
                 return StackSlice(outer=frame)
         return (agen.ag_frame, agen.ag_await)
 
